@@ -1528,7 +1528,14 @@ func (s *TO2Server) ownerServiceInfo(ctx context.Context, msg io.Reader) (*owner
 		if !ok {
 			break
 		}
-		moduleName, messageName, _ := strings.Cut(key, ":")
+		keyModule, messageName, _ := strings.Cut(key, ":")
+		if keyModule != moduleName {
+			// Addressed to a module that is not (or no longer) the current one
+			slog.Warn("dropping device service info for a module that is not current", "key", key, "current", moduleName)
+			_, _ = io.Copy(io.Discard, messageBody)
+			_ = messageBody.Close()
+			continue
+		}
 		if err := module.HandleInfo(ctx, messageName, messageBody); err != nil {
 			return nil, fmt.Errorf("error handling device service info %q: %w", key, err)
 		}
